@@ -64,6 +64,7 @@ type gen struct {
 	vals     map[ssa.Value]*Val
 	fnNamed  map[int]bool
 	hypForalls []hypForall
+	cutting    *ssa.BasicBlock // header of the loop whose invariants are being evaluated between blocks
 	curCall    *ssa.CallCommon // the call being interpreted (for argis)
 	storedVal  *Term           // the value of the store being guarded (for storedvalue)
 	cellOf     map[token.Pos]*ssa.Alloc // named locals that live in a cell, by declaration position
@@ -1262,6 +1263,7 @@ func (g *gen) cutLoop(li *loopInfo, spec *LoopSpec) {
 		g.autoCounterInv(st, li, p, fv, init[i])
 	}
 	// ---- assume invariants
+	g.cutting = h
 	var env *SpecEnv
 	g.varAt = entryVars
 	g.loopEntryVals = levSave
@@ -1284,6 +1286,8 @@ func (g *gen) cutLoop(li *loopInfo, spec *LoopSpec) {
 	g.done[h] = true
 	g.execBlocks(g.loopBody(li), li)
 	// ---- back edges: inv-keep, dec
+	g.cutting = h
+	defer func() { g.cutting = nil }()
 	for _, e := range g.incoming[h] {
 		if e.from == nil || !li.blocks[e.from] {
 			continue
